@@ -414,7 +414,7 @@ SUBCHECKS = [
                                                             "transform-object-reused-on-a-tree-of-the-same-source": 150,
                                                             "affine-matrix-with-homogeneous-scale": 60, "tree-with-renamed-columns": 200})),
     Sub("pipeline", pipeline_strategy, run_pipeline, quick=800, thorough=8000, shards_quick=4,
-        required={"root-centred-stage-after-the-root-was-moved": 150, "stages:3": 100}),
+        required={"root-centred-stage-after-the-root-was-moved": 79, "stages:3": 100}),
     Sub("builders", builder_strategy, run_builder, quick=600, thorough=8000, shards_quick=2,
         required={"axis:general": 200, "axis:coordinate": 30}),
 ]
